@@ -13,38 +13,30 @@ PROFILES = [
 N = {'quick': 3200, 'thorough': 400000}
 
 
-def align_growth(prog, e):
-    """True when the -c-only refusal is the known 'align padding grows under compression' case: the refused line has a
-    label-dependent operand (or is a transfer to a label), an `align N` lies between that line and the label it refers to, and the
-    value is out of range by no more than the padding those aligns can add."""
-    import re
-    from vlib import ir
+ENCODER_32BIT_MESSAGES = ('12-bit immediate', '12-bit MO2 immediate', '20-bit immediate', '20-bit MO2 immediate')
+
+
+def layout_dependent_operand(prog, e):
+    """True when the -c-only refusal is the KNOWN, inherent case: the refused line has an operand that depends on labels (or is a
+    transfer to a label) and it is refused by the range / multiple-of check of the instruction AS WRITTEN - the 32-bit encoder
+    of a 32-bit source instruction or pseudo-instruction, or the own encoder of an explicitly written c.* instruction.  The value
+    simply is different in the compressed layout (labels move, align padding changes) and no longer representable there.
+    A refusal by a c.* encoder that the COMPRESSOR chose for a 32-bit source instruction is something else (a decision taken on
+    a value that changed afterwards) and keeps its own signature."""
     ln = getattr(getattr(e, 'line', None), 'number', None)
     msg = getattr(e, 'message', '') or ''
-    m = re.search(r'between .*?\((-?\d+)\) and .*?\((-?\d+)\): (-?\d+)\s*$', msg)
-    if ln is None or not m or not (1 <= ln <= len(prog.items)):
+    if ln is None or not (1 <= ln <= len(prog.items)):
         return False
-    lo, hi, v = int(m.group(1)), int(m.group(2)), int(m.group(3))
-    over = v - hi if v > hi else lo - v
-    if over <= 0:
+    if not ('must be between' in msg or 'multiple of' in msg or 'muliple of' in msg or 'constraint failed' in msg):
         return False
     it = prog.items[ln - 1]
-    names = set()
     vals = list(it.ops.values()) if it.kind == 'insn' else (list(it.ops) if it.kind == 'pseudo' else [])
-    for x in vals:
-        if isinstance(x, str):
-            names.add(x)
-        elif hasattr(x, 'labels'):
-            names |= x.labels()
-    if not names:
+    dep = any(isinstance(x, str) or getattr(x, 'label_dep', False) for x in vals)
+    if not dep:
         return False
-    pos = {x.name: i for i, x in enumerate(prog.items) if x.kind == 'label'}
-    room = 0
-    for n in names:
-        if n in pos:
-            a, b = sorted((ln - 1, pos[n]))
-            room = max(room, sum(x.n - 1 for x in prog.items[a:b + 1] if x.kind == 'align'))
-    return 0 < over <= room
+    explicit_c = it.kind == 'insn' and it.mn.startswith('c.')
+    own_32 = msg.startswith(ENCODER_32BIT_MESSAGES)
+    return explicit_c or own_32
 
 
 def judge(prog, res):
@@ -65,8 +57,8 @@ def judge(prog, res):
     if c[0] != 'ok':
         e = c[1]
         sig = 'only_with_c:%s' % progcheck.exc_sig(e)
-        if align_growth(prog, e):
-            sig = 'only_with_c:align_growth'
+        if layout_dependent_operand(prog, e):
+            sig = 'only_with_c:layout_dependent_operand'
         line = getattr(getattr(e, 'line', None), 'contents', None)
         raise env.CaseFailure(sig, 'assembles without -c (%d bytes) but with -c: %s: %s%s' % (
             len(u[1]), type(e).__name__, str(e)[-300:], '\n  line: %r' % line if line else ''), progcheck.case_of(prog, True))
